@@ -82,7 +82,7 @@ def inv(st, kind, n, strip_suffix):
         host = "www.youtube.com/results" if kind == "glhl-youtube" else "www.facebook.com/search"
         u = cat("https://", host, "?q=cats")
         v = cat("https://", host, "?hl=", h, "&q=cats&gl=", h)
-    elif kind == "case-escaped":
+    elif kind == "escaped-case":
         # an upper-case Latin-1 letter written as an escape (%C3%80..%C3%9E) against its lower-case form (%C3%A0..%C3%BE)
         if n != 2:
             st.assume(False, "n/a")
@@ -105,7 +105,7 @@ def inv(st, kind, n, strip_suffix):
     if kind.startswith("suffix-"):
         # first, so that the calls with strip_suffix=False really are the first ones on these hosts
         run_prop(st, "invariant/suffix-after-other-calls", S.same_fingerprint_after_other_calls, u, v)
-    run_prop(st, "invariant/" + kind.split("-")[0], S.same_fingerprint, u, v, strip_suffix)
+    run_prop(st, "invariant/" + ("case" if kind == "escaped-case" else kind.split("-")[0]), S.same_fingerprint, u, v, strip_suffix)
 
 
 def shape(st, skel, n, strip_suffix):
@@ -128,7 +128,7 @@ def items(tier):
         for n in range(0, nmax + 1):
             out.append({"fn": "inv", "params": {"kind": kind, "n": n, "strip_suffix": bool(n % 2)}, "name": "%s n=%d" % (kind, n), "weight": 6 ** n})
     for ss in (False, True):
-        out.append({"fn": "inv", "params": {"kind": "case-escaped", "n": 2, "strip_suffix": ss}, "name": "case-escaped ss=%s" % ss, "weight": 40})
+        out.append({"fn": "inv", "params": {"kind": "escaped-case", "n": 2, "strip_suffix": ss}, "name": "escaped-case ss=%s" % ss, "weight": 40})
     for n in range(1, 6):
         out.append({"fn": "inv", "params": {"kind": "port", "n": n, "strip_suffix": bool(n % 2)}, "name": "port digits=%d" % n, "weight": 3 ** n})
     for kind, n in (("lang2", 2), ("lang2-3labels", 2), ("lang5", 4)):
